@@ -244,149 +244,6 @@ func poolNewReturns(c *Ctx, ta *ssa.TypeAssert) bool {
 	return found && all
 }
 
-// ---- U1 ---------------------------------------------------------------------------------------------------------------
-
-var calendarAccessors = map[string]bool{
-	"(time.Time).Year": true, "(time.Time).Month": true, "(time.Time).Day": true, "(time.Time).Hour": true,
-	"(time.Time).Minute": true, "(time.Time).Second": true, "(time.Time).Nanosecond": true, "(time.Time).YearDay": true, "(time.Time).Weekday": true,
-	"(time.Time).Date": true, "(time.Time).Clock": true, "(time.Time).Format": true, "(time.Time).AppendFormat": true,
-}
-
-func runC20U1(c *Ctx) {
-	sp := c.spkg("logger")
-	scope, logs := c20LoggerScope(c)
-	if sp == nil || len(logs) == 0 {
-		c.undecided("C20.U1", "anchor|implementations of logger.Logger", "no method of package logger implements the Logger interface")
-		return
-	}
-	isUTC := func(v ssa.Value) bool { _, ok := isCallTo(v, "(time.Time).UTC"); return ok }
-	isEventPtr := func(t types.Type) bool {
-		p, ok := t.(*types.Pointer)
-		return ok && namedIs(p.Elem(), "logger.Event")
-	}
-	// Are the events handed to the renderers normalised? Every dynamic call (a call of a function value: the field
-	// renderers are dispatched that way) in the access logger that passes an *Event must pass one that is a copy
-	// whose Start/End were assigned from time.Time.UTC() — wherever that copy is made.
-	normalised := func(al *ssa.Alloc, fld string) bool {
-		sts := c20FieldStores(al, fld, 0)
-		if len(sts) == 0 {
-			return false
-		}
-		for _, st := range sts {
-			if !derives(st.Val, isUTC) {
-				return false
-			}
-		}
-		return true
-	}
-	// ... or where the event is built: when what is dispatched is the Logger implementation's own parameter, every
-	// caller of Logger.Log in the repository must pass a normalised event.
-	isLogParam := func(v ssa.Value) bool {
-		p, ok := v.(*ssa.Parameter)
-		if !ok {
-			return false
-		}
-		for _, l := range logs {
-			if p.Parent() == l {
-				return true
-			}
-		}
-		return false
-	}
-	var callerEvents []ssa.Value
-	for _, f := range c.AllFns {
-		eachInstr(f, func(i ssa.Instruction) {
-			if cc := callCommon(i); cc != nil && cc.IsInvoke() && cc.Method.Name() == "Log" && namedIs(cc.Value.Type(), "logger.Logger") && len(cc.Args) == 1 {
-				callerEvents = append(callerEvents, cc.Args[0])
-			}
-		})
-	}
-	builtUTC := func(fld string) bool {
-		if len(callerEvents) == 0 {
-			return false
-		}
-		for _, a := range callerEvents {
-			ok := false
-			for _, al := range c20Allocs(a, "logger.Event") {
-				if normalised(al, fld) {
-					ok = true
-				}
-			}
-			if !ok {
-				return false
-			}
-		}
-		return true
-	}
-	eventUTC := map[string]bool{"Start": true, "End": true}
-	nDyn := 0
-	for _, f := range c.AllFns {
-		if !scope[f] {
-			continue
-		}
-		eachInstr(f, func(i ssa.Instruction) {
-			cc := callCommon(i)
-			if cc == nil || cc.IsInvoke() || cc.StaticCallee() != nil {
-				return
-			}
-			if _, isB := cc.Value.(*ssa.Builtin); isB {
-				return
-			}
-			for _, a := range cc.Args {
-				if !isEventPtr(a.Type()) {
-					continue
-				}
-				nDyn++
-				for _, fld := range []string{"Start", "End"} {
-					ok := false
-					for _, al := range c20Allocs(a, "logger.Event") {
-						if normalised(al, fld) {
-							ok = true
-						}
-					}
-					if !ok && derives(a, isLogParam) && builtUTC(fld) {
-						ok = true
-					}
-					if !ok {
-						eventUTC[fld] = false
-					}
-				}
-			}
-		})
-	}
-	if nDyn == 0 {
-		eventUTC["Start"], eventUTC["End"] = false, false
-	}
-	n := 0
-	for _, f := range c.AllFns {
-		if rootPkg(f) != sp {
-			continue
-		}
-		eachInstr(f, func(i ssa.Instruction) {
-			call, ok := i.(*ssa.Call)
-			if !ok || !calendarAccessors[calleeName(&call.Call)] {
-				return
-			}
-			n++
-			recv := call.Call.Args[0]
-			ok2 := derives(recv, func(v ssa.Value) bool {
-				if isUTC(v) {
-					return true
-				}
-				for _, fld := range []string{"Start", "End"} {
-					if _, isF := fieldOf(v, "logger.Event", fld); isF && eventUTC[fld] {
-						return true
-					}
-				}
-				return false
-			})
-			c.check("C20.U1", fnKey(f)+"|"+strings.TrimPrefix(calleeName(&call.Call), "(time.Time).")+" of a UTC time", call.Pos(), ok2,
-				"this calendar field is printed with a fixed UTC suffix ('Z' / '+0000') but is taken from a time that is not normalised with UTC(): whenever the process runs with TZ != UTC the log shows local wall-clock time labelled as UTC")
-		})
-	}
-	c.atLeast("C20.U1", "calendar accessors in the field renderers", n, 1)
-}
-
 // ---- F1 ---------------------------------------------------------------------------------------------------------------
 
 // c20FieldKeys: the constant keys of the renderer table(s) of package logger: every map whose elements are functions
@@ -397,18 +254,8 @@ func c20FieldKeys(c *Ctx) map[string]bool {
 	if sp == nil || pp == nil {
 		return keys
 	}
-	isRenderer := func(t types.Type) bool {
-		sig, ok := t.Underlying().(*types.Signature)
-		if !ok {
-			return false
-		}
-		for k := 0; k < sig.Params().Len(); k++ {
-			if p, ok := sig.Params().At(k).Type().(*types.Pointer); ok && namedIs(p.Elem(), "logger.Event") {
-				return true
-			}
-		}
-		return false
-	}
+	isRenderer := func(t types.Type) bool { return c20IsRendererType(t, 0) }
+	var pr *c20prover
 	for _, f := range c20AllFns(c) {
 		if rootPkg(f) != sp {
 			continue
@@ -424,6 +271,34 @@ func c20FieldKeys(c *Ctx) map[string]bool {
 			}
 			if s, ok := constString(mu.Key); ok {
 				keys[s] = true
+				return
+			}
+			// a table-driven registration: fields[u.name] = ... for the elements u of a table of structs
+			var addr ssa.Value
+			fld := -1
+			switch k := mu.Key.(type) {
+			case *ssa.UnOp:
+				if fa, isFA := k.X.(*ssa.FieldAddr); isFA && k.Op == token.MUL {
+					addr, fld = fa.X, fa.Field
+				}
+			case *ssa.Field:
+				if ld, isLd := k.X.(*ssa.UnOp); isLd && ld.Op == token.MUL {
+					addr, fld = ld.X, k.Field
+				}
+			}
+			if addr == nil {
+				return
+			}
+			if _, isPtr := addr.Type().Underlying().(*types.Pointer); !isPtr {
+				return
+			}
+			if pr == nil {
+				pr = newC20Prover(c)
+			}
+			if names, ok := c20MemberStrings(pr, addr, fld); ok {
+				for _, s := range names {
+					keys[s] = true
+				}
 			}
 		})
 	}
@@ -453,6 +328,39 @@ func c20FieldKeys(c *Ctx) map[string]bool {
 		})
 	}
 	return keys
+}
+
+// c20IsRendererType: something that renders an event: a function one of whose parameters is, points to or wraps a
+// logger.Event (func(b, e *Event), func(c *renderContext)), an interface with such a method, or a small struct with
+// such a member (a table entry {name, render}).
+func c20IsRendererType(t types.Type, depth int) bool {
+	switch u := t.Underlying().(type) {
+	case *types.Signature:
+		for k := 0; k < u.Params().Len(); k++ {
+			if c20Carries(u.Params().At(k).Type(), "logger.Event", 0) {
+				return true
+			}
+		}
+	case *types.Interface:
+		for k := 0; k < u.NumMethods(); k++ {
+			if c20IsRendererType(u.Method(k).Type(), depth+1) {
+				return true
+			}
+		}
+	case *types.Struct:
+		if depth == 0 {
+			for k := 0; k < u.NumFields(); k++ {
+				if c20IsRendererType(u.Field(k).Type(), depth+1) {
+					return true
+				}
+			}
+		}
+	case *types.Pointer:
+		if depth == 0 {
+			return c20IsRendererType(u.Elem(), depth+1)
+		}
+	}
+	return false
 }
 
 func runC20F1(c *Ctx) {
@@ -521,9 +429,31 @@ func runC20O1(c *Ctx) {
 		call, ok := i.(*ssa.Call)
 		return ok && call.Call.IsInvoke() && call.Call.Method.Name() == "Log" && namedIs(call.Call.Value.Type(), "logger.Logger")
 	}
+	// the inner handler: h.ServeHTTP(rw, r), or a handler kept as a function value and called directly: h(rw, r)
 	isInner := func(i ssa.Instruction) bool {
 		call, ok := i.(*ssa.Call)
-		return ok && call.Call.IsInvoke() && call.Call.Method.Name() == "ServeHTTP"
+		if !ok {
+			return false
+		}
+		if call.Call.IsInvoke() {
+			return call.Call.Method.Name() == "ServeHTTP"
+		}
+		if sc := call.Call.StaticCallee(); sc != nil && sc.Synthetic != "" && strings.HasPrefix(sc.Name(), "ServeHTTP$") {
+			return true // the method value h.ServeHTTP called on the spot: serve := h.ServeHTTP; serve(rw, r)
+		}
+		if !c20IsDynamic(&call.Call) {
+			return false
+		}
+		sig, ok := call.Call.Value.Type().Underlying().(*types.Signature)
+		if !ok {
+			return false
+		}
+		for k := 0; k < sig.Params().Len(); k++ {
+			if namedIs(sig.Params().At(k).Type(), "net/http.ResponseWriter") {
+				return true
+			}
+		}
+		return false
 	}
 	// the Log calls of the request path: in ServeHTTP or in the helpers it calls
 	var logs []*ssa.Call
